@@ -5,11 +5,15 @@
 //            random: |train| == round-half-up(percentage * n / 100); equal seeds give equal splits
 //   sample:  without replacement: `count` distinct sorted members; with replacement: `count` sorted members;
 //            weighted: no index of zero weight
+//   ball:    sample_from_ball(x0, radius, rng), all four overloads: the point has the dimension of x0, is finite and lies in the
+//            ball up to the representation error of x0 + delta (|x - x0| <= radius * (1 + 1e-9) + 4 * sqrt(n) * ulp(max |x0_i|))
 // usage: C12_replay kfold|random n folds seed [train_per]        C12_replay without|with|weighted n count [weight scale]
+//        C12_replay ball n radius [centre]
 // The input list is non-contiguous and NOT sorted: the values 3*i + 7 with neighbours swapped pairwise ("for any list of
 // distinct sample indices").  Weighted: the weight of position i is 0 for i % 3 == 1, else scale * (1 + i % 5) -- weights
 // are only meaningful up to scale.  exit 1 = property violated, 0 = holds.
 #include <algorithm>
+#include <cmath>
 #include <cstdio>
 #include <cstdlib>
 #include <nano/core/sampling.h>
@@ -52,6 +56,48 @@ int main(int argc, char* argv[])
     }
     const auto kind = std::string(argv[1]);
     const auto n    = static_cast<tensor_size_t>(std::atoll(argv[2]));
+    if (kind == "ball")
+    {
+        const auto radius = std::atof(argv[3]);
+        const auto centre = argc > 4 ? std::atof(argv[4]) : 1.0;
+        auto       x0     = make_full_vector<scalar_t>(n, centre);
+        for (tensor_size_t i = 0; i < n; ++i)
+        {
+            x0(i) += 0.125 * static_cast<scalar_t>(i);
+        }
+        const auto slack = 4.0 * std::sqrt(static_cast<double>(n)) * (std::nextafter(std::fabs(centre) + 0.125 * static_cast<double>(n), 1e300) - (std::fabs(centre) + 0.125 * static_cast<double>(n)));
+        auto       rng   = make_rng(42);
+        for (int trial = 0; trial < 4000; ++trial)
+        {
+            vector_t x;
+            switch (trial % 4)
+            {
+            case 0: x = sample_from_ball(x0, radius, rng); break;
+            case 1: x = sample_from_ball(x0, radius); break;
+            case 2: x = vector_t{n}; sample_from_ball(x0, radius, x, rng); break;
+            default: x = vector_t{n}; sample_from_ball(x0, radius, x); break;
+            }
+            if (x.size() != x0.size())
+            {
+                return fail("ball: the point does not have the dimension of x0");
+            }
+            long double d2 = 0;
+            for (tensor_size_t i = 0; i < n; ++i)
+            {
+                const long double d = static_cast<long double>(x(i)) - static_cast<long double>(x0(i));
+                d2 += d * d;
+            }
+            const auto dist = static_cast<double>(std::sqrt(d2));
+            if (!std::isfinite(dist) || dist > radius * (1.0 + 1e-9) + slack)
+            {
+                std::printf("{\"violates\": 1, \"what\": \"ball: point outside the ball\", \"n\": %ld, \"radius\": %.17g, \"distance\": %.17g, \"overload\": %d}\n",
+                            static_cast<long>(n), radius, dist, trial % 4);
+                return 1;
+            }
+        }
+        std::printf("{\"violates\": 0, \"kind\": \"ball\", \"n\": %ld}\n", static_cast<long>(n));
+        return 0;
+    }
     const auto in   = make_input(n);
     const auto all  = std::set<tensor_size_t>(std::begin(in), std::end(in));
 
